@@ -62,3 +62,36 @@ Example C04_certified_nonvacuous :
   plan_cert rf_bd rf_tbl rf_ord [] 20 rf_a rf_b = true /\
   convert rf_bd rf_tbl rf_ord [] 20 3 rf_a rf_b = COk 6.
 Proof. split; vm_compute; reflexivity. Qed.
+
+(* ---- where `consistent se tbl` comes from ----
+   Declarations that are all true of one assignment of sizes (ma * size a = mb * size b, non-zero magnitudes) build, in any order and
+   however often a pair is re-declared, a table consistent with it; so a certified conversion over ANY table built by such a history is
+   right (the hypothesis of C04_certified discharged from the declarations themselves). *)
+From Measured Require Import Model.Declare Proofs.EquateFacts Proofs.DeclareConsistent.
+
+Theorem C04_true_declarations_consistent : forall se ds t,
+  Forall (decl_true se) ds -> consistent se t -> consistent se (fold_left declare ds t).
+Proof. exact true_declarations_consistent. Qed.
+Print Assumptions C04_true_declarations_consistent.
+
+Theorem C04_certified_over_declared_tables : forall se bd ds offs ord, sizes_pos se -> Forall (decl_true se) ds ->
+  forall fuel m s e v,
+  plan_cert bd (fold_left declare ds []) ord offs fuel s e = true ->
+  convert bd (fold_left declare ds []) ord offs fuel m s e = COk v ->
+  v == m * usz se s / usz se e.
+Proof.
+  intros se bd ds offs ord Hpos Hds fuel m s e v Hc Hv.
+  apply (convert_certified se bd (fold_left declare ds []) offs ord Hpos
+           (true_declarations_consistent se ds [] Hds (consistent_empty se)) fuel m s e v Hc Hv).
+Qed.
+Print Assumptions C04_certified_over_declared_tables.
+
+(* non-vacuity: a = 2 b declared twice (first as 3 b: false of the sizes, so only the true history is admitted) *)
+Example C04_true_history_nonvacuous :
+  Forall (decl_true rf_sizes) [(1, rf_a, 2, rf_b); (2, rf_a, 4, rf_b)] /\
+  consistent rf_sizes (fold_left declare [(1, rf_a, 2, rf_b); (2, rf_a, 4, rf_b)] []).
+Proof.
+  assert (H : Forall (decl_true rf_sizes) [(1, rf_a, 2, rf_b); (2, rf_a, 4, rf_b)]).
+  { repeat constructor; try (vm_compute; discriminate); vm_compute; reflexivity. }
+  split; [exact H|]. apply true_declarations_consistent; [exact H|apply consistent_empty].
+Qed.
